@@ -393,6 +393,7 @@ Qed.
 Lemma lock_line_cmp cfg st fs2 Ufinal l entry src g st' :
   c_update cfg = true ->
   reaches cfg st l false (CBuiltin cmp_name) [src; g] -> is_std src = true ->
+  clean (mkabs st g) = mkabs st g ->
   assoc_get (s_files st) (mkabs st g) = Some entry ->
   golden_tables st fs2 Ufinal -> assoc_get (s_updates st) entry = None ->
   run_line cfg st l = Done st' ->
@@ -401,7 +402,7 @@ Lemma lock_line_cmp cfg st fs2 Ufinal l entry src g st' :
   /\ s_fs st' = s_fs st
   /\ (forall e, bytes_eqb e entry = false -> assoc_get (s_updates st') e = assoc_get (s_updates st) e).
 Proof.
-  intros Hu Hr Hstd Hfile Htab Hnone Hrun Hfin.
+  intros Hu Hr Hstd Hcl Hfile Htab Hnone Hrun Hfin.
   rewrite (run_line_reaches _ _ _ _ _ _ Hr) in Hrun.
   rewrite (run_line_reaches _ _ _ _ _ _ (reaches_sw cfg false st fs2 [] l _ _ _ Hr)).
   cbn [cmd_sem] in *. rewrite builtin_cmp in *. rewrite Hu in Hrun.
@@ -409,7 +410,7 @@ Proof.
   destruct (ts_read_std st src Hstd) as [text [Hread Hread2]].
   destruct (Htab _ _ Hfile) as [g1 [Hg1 Hg2]].
   unfold cmd_cmp in *. rewrite Hread in Hrun. rewrite (Hread2 fs2 []).
-  change (mkabs (swapfu st fs2 []) g) with (mkabs st g).
+  change (mkabs (swapfu st fs2 []) g) with (mkabs st g). rewrite Hcl in *.
   change (s_fs (swapfu st fs2 [])) with fs2.
   destruct (bytes_eqb src g); [discriminate|].
   rewrite Hg1 in Hrun. rewrite Hg2.
@@ -425,12 +426,13 @@ Proof.
 Qed.
 
 Lemma cmp_run1 upd st src g entry st' :
+  clean (mkabs st g) = mkabs st g ->
   assoc_get (s_files st) (mkabs st g) = Some entry ->
   cmd_cmp upd false false [src; g] st = Done st' ->
   s_fs st' = s_fs st
   /\ forall e, bytes_eqb e entry = false -> assoc_get (s_updates st') e = assoc_get (s_updates st) e.
 Proof.
-  intros Hfile H. unfold cmd_cmp in H.
+  intros Hcl Hfile H. unfold cmd_cmp in H. rewrite Hcl in H.
   destruct (bytes_eqb src g); [discriminate|].
   destruct (ts_read st src) as [text|]; [|discriminate].
   destruct (read_file (s_fs st) (mkabs st g)) as [data|]; [|discriminate].
@@ -465,9 +467,9 @@ Proof.
   - destruct (lock_line_free cfg false st (s_fs st) [] l st' (fun d => eq_refl)
                 (or_intror (or_intror (ex_intro _ neg (ex_intro _ c (ex_intro _ args (conj Hr Hf)))))) Hrun) as [_ [H1 H2]].
     rewrite H2. auto.
-  - destruct Hg as [-> [-> [src [g [-> [Hstd Hfile]]]]]].
+  - destruct Hg as [-> [-> [src [g [-> [Hstd [Hcl Hfile]]]]]]].
     rewrite (run_line_reaches _ _ _ _ _ _ Hr) in Hrun. cbn [cmd_sem] in Hrun. rewrite builtin_cmp in Hrun.
-    destruct (cmp_run1 _ _ _ _ _ _ Hfile Hrun) as [H1 H2].
+    destruct (cmp_run1 _ _ _ _ _ _ Hcl Hfile Hrun) as [H1 H2].
     split; [exact H1|]. split; [exact Hfiles|]. split; [|split].
     + intros e He. apply H2. apply neq_bytes_eqb. intros ->. contradiction.
     + intros e He. apply H2. apply neq_bytes_eqb. intros ->. apply He. left. reflexivity.
@@ -547,8 +549,8 @@ Proof.
       - apply (lock_line_free cfg false st fs2 [] l s Hd (or_intror (or_introl (ex_intro _ words (conj Ht Hb)))) Hl).
       - apply (lock_line_free cfg false st fs2 [] l s Hd
                  (or_intror (or_intror (ex_intro _ neg (ex_intro _ c (ex_intro _ args (conj Hr Hf)))))) Hl).
-      - destruct Hg as [-> [-> [src [g [-> [Hstd Hfile]]]]]].
-        apply (lock_line_cmp cfg st fs2 Ufinal l entry src g s Hu Hr Hstd Hfile Htab (Hnone entry Hnin) Hl).
+      - destruct Hg as [-> [-> [src [g [-> [Hstd [Hcl Hfile]]]]]]].
+        apply (lock_line_cmp cfg st fs2 Ufinal l entry src g s Hu Hr Hstd Hcl Hfile Htab (Hnone entry Hnin) Hl).
         apply Hlater. left. reflexivity. }
     rewrite Hl2. change (s_stopped (swapfu s fs2 [])) with (s_stopped s).
     destruct (s_stopped s).
@@ -712,8 +714,8 @@ Proof.
     rewrite Hp in HB. set (p := mkabs stA (expand (s_env stA) n)) in *.
     destruct (beneath work p); [|inversion HA]. cbn [negb] in HA, HB.
     assert (s_files stB = s_files stA) as Hfl by (rewrite Hrel; reflexivity). rewrite Hfl in HB.
-    destruct (mkdir_all (s_fs (set_files stA (assoc_set (s_files stA) p n))) (dir p) 511) as [t1A [|]]; [|inversion HA].
-    destruct (mkdir_all (s_fs (set_files stB (assoc_set (s_files stA) p n))) (dir p) 511) as [t1B [|]]; [|inversion HB].
+    destruct (mkdir_all (s_fs (set_files stA (assoc_set (s_files stA) (clean p) n))) (dir p) 511) as [t1A [|]]; [|inversion HA].
+    destruct (mkdir_all (s_fs (set_files stB (assoc_set (s_files stA) (clean p) n))) (dir p) 511) as [t1B [|]]; [|inversion HB].
     destruct (if u then write_file_excl t1A p d 438 else write_file t1A p d 438) as [t2A|]; [|inversion HA].
     destruct (if u then write_file_excl t1B p d' 438 else write_file t1B p d' 438) as [t2B|]; [|inversion HB].
     eapply (IH r' _ _ sA sB Hn2 _ HA HB).
@@ -819,6 +821,8 @@ Proof.
         destruct c as [name'| |]; try discriminate. simpl in Hc. apply bytes_eqb_eq in Hc. subst name'.
         destruct args as [|src [|g [|x r]]]; try discriminate.
         destruct (is_std src) eqn:Hstd; [|discriminate].
+        destruct (bytes_eqb (clean (mkabs st g)) (mkabs st g)) eqn:Hcl; [|discriminate]. cbn [andb].
+        apply bytes_eqb_eq in Hcl.
         destruct (assoc_get (s_files st) (mkabs st g)) as [entry|] eqn:Hfile; [|discriminate].
         destruct (mem_b entry seen) eqn:Hm; [discriminate|].
         intros H. inversion H; subst. eapply LC_cmp; [exact Hr| |apply mem_b_In; exact Hm].
@@ -886,7 +890,7 @@ Proof.
   { eapply LC_cmp with (neg := false) (c := CBuiltin cmp_name) (args := [b "stdout"; b "g.txt"]).
     - eapply (reaches_plain _ _ _ (b "cmp") [b "stdout"; b "g.txt"]); try rewrite Hs1; vm_compute; reflexivity.
     - split; [reflexivity|]. split; [reflexivity|]. exists (b "stdout"), (b "g.txt").
-      split; [reflexivity|]. split; [reflexivity|]. rewrite Hs1. vm_compute. reflexivity.
+      split; [reflexivity|]. split; [reflexivity|]. split; rewrite Hs1; vm_compute; reflexivity.
     - intros []. }
   destruct (run_line cfg0 (at_line 2 false s1) (b "cmp stdout g.txt")) as [s2|s2|s2] eqn:E2; try exact I.
   assert (s2 = outcome_state (run_line cfg0 (at_line 2 false s1) (b "cmp stdout g.txt"))) as Hs2 by (rewrite E2; reflexivity).
